@@ -595,6 +595,14 @@ type Upd struct {
 	Delete   bool           // UpdateFunc only: return nil
 	BadExp   bool           // set _expiresAt to a non-time
 	SpellingOfOwnID bool    // set _id to the other letter case of the document's own id
+	Raw      map[string]any // optional: for a path of Set, the same value as non-canonical Go types (handed to clover instead)
+}
+
+func (u *Upd) real(k string) any {
+	if v, ok := u.Raw[k]; ok {
+		return v
+	}
+	return model.DeepCopy(u.Set[k])
 }
 
 func otherCase(id string) string {
@@ -662,7 +670,7 @@ func (u *Upd) callback(calls *[]updCall) func(*document.Document) *document.Docu
 			t = doc.Copy()
 		}
 		for _, k := range model.SortedKeys(u.Set) {
-			t.Set(k, model.DeepCopy(u.Set[k]))
+			t.Set(k, u.real(k))
 		}
 		if u.NewID != "" {
 			if u.SpellingOfOwnID {
@@ -680,8 +688,8 @@ func (u *Upd) callback(calls *[]updCall) func(*document.Document) *document.Docu
 
 func (u *Upd) asMap() map[string]any {
 	m := map[string]any{}
-	for k, v := range u.Set {
-		m[k] = model.DeepCopy(v)
+	for k := range u.Set {
+		m[k] = u.real(k)
 	}
 	if u.NewID != "" {
 		m["_id"] = u.NewID
